@@ -41,6 +41,11 @@ func jsonCfgs() []jsonCfg {
 		{"w80-4sp-sort", &snaps.JSONConfig{Width: 80, Indent: "    ", SortKeys: true}, false},
 		{"w20-tab-nosort", &snaps.JSONConfig{Width: 20, Indent: "\t", SortKeys: false}, false},
 		{"zero-value-config", &snaps.JSONConfig{}, false},
+		// same indent and SortKeys as other entries (and as the defaults), another width
+		{"w80-1sp-sort", &snaps.JSONConfig{Width: 80, Indent: " ", SortKeys: true}, false},
+		{"w20-1sp-sort", &snaps.JSONConfig{Width: 20, Indent: " ", SortKeys: true}, false},
+		{"w200-tab-sort", &snaps.JSONConfig{Width: 200, Indent: "\t", SortKeys: true}, false},
+		{"w0-4sp-nosort", &snaps.JSONConfig{Width: 0, Indent: "    ", SortKeys: false}, false},
 		// `var c snaps.Config; snaps.Dir(d)(&c)`: Config and the option funcs are exported
 		{"default-on-a-Config-not-built-by-WithConfig", nil, true},
 		{"w80-4sp-sort-on-a-Config-not-built-by-WithConfig", &snaps.JSONConfig{Width: 80, Indent: "    ", SortKeys: true}, true},
@@ -66,7 +71,18 @@ type wrapS struct {
 // document it encodes to, apart from member order inside marshaler-emitted parts.
 func typedView(r *rand.Rand, d *vkit.JNode, v any) (any, string) {
 	raw := func(n *vkit.JNode) string { return n.Render(r, false) }
-	switch x := r.IntN(8); {
+	switch x := r.IntN(9); {
+	case x == 8:
+		// the whole document behind one top-level marshaler value
+		switch r.IntN(3) {
+		case 0:
+			return json.RawMessage(raw(d)), "top-level-raw-message"
+		case 1:
+			return vmS(raw(d)), "top-level-value-receiver-marshaler"
+		default:
+			p := pmS(raw(d))
+			return &p, "top-level-pointer-receiver-marshaler"
+		}
 	case x == 0:
 		return &v, "pointer-to-interface"
 	case x == 1 && d.Kind == "arr":
